@@ -60,6 +60,7 @@ var c15Sets = map[string]c15Set{
 	"V(1,1,1)":    {"V(1,1,1)", []string{"hv1", "hv2", "hv3"}, []int64{1, 1, 1}},
 	"V(3,1,1)":    {"V(3,1,1)", []string{"hv1", "hv2", "hv3"}, []int64{3, 1, 1}},
 	"V(2,1,1,1)":  {"V(2,1,1,1)", []string{"hv1", "hv2", "hv3", "hv4"}, []int64{2, 1, 1, 1}},
+	"V(34,33,33)": {"V(34,33,33)", []string{"hv1", "hv2", "hv3"}, []int64{34, 33, 33}}, // two of them hold 66 %: just under two thirds
 	"V(100,10,1)": {"V(100,10,1)", []string{"hv1", "hv2", "hv3"}, []int64{100, 10, 1}}, // C18's set
 	"V'":          {"V'", []string{"hw1", "hw2", "hw3"}, []int64{1, 1, 1}},
 }
@@ -744,7 +745,7 @@ func init() {
 	register(&Check{ID: "C15", Level: "model_checking",
 		Run: func(rc *engine.RunCtx) *engine.Result {
 			res := engine.NewResult()
-			sets := []string{"V(1,1,1)", "V(3,1,1)", "V(1,1,1)" + c15Unset}
+			sets := []string{"V(1,1,1)", "V(3,1,1)", "V(34,33,33)", "V(1,1,1)" + c15Unset}
 			if rc.Thorough() {
 				sets = append(sets, "V(2,1,1,1)")
 			}
